@@ -611,7 +611,10 @@ pub fn forget_case(seed: u64, l: &mut Local) {
         w.browse(h, other);
     }
     w.run_for(200 + rng.below(700));
-    let n = 1 + rng.usize(3);
+    // (half of the runs with a second search: its instance lives on a host of its own, or on one of the hosts of
+    // the type that will be stopped - that host's addresses are still needed then, the other hosts' are not)
+    let shared_host = with_other && util::mix(seed, 0x5A) % 2 == 0;
+    let n = if shared_host { 2 + rng.usize(3) } else { 1 + rng.usize(3) };
     let capitals = rng.chance(1, 2);
     let mut svcs = Vec::new();
     for i in 0..n {
@@ -629,8 +632,15 @@ pub fn forget_case(seed: u64, l: &mut Local) {
         w.run_for(50 + rng.below(350));
         svcs.push(s);
     }
+    let shared_idx = (util::mix(seed, 0x5B) % n as u64) as usize;
     if with_other {
-        let s = scen::Svc::new(other, "kept", "Keep-Host.local", [10, 0, 0, 60]);
+        let s = if shared_host {
+            let mut k = scen::Svc::new(other, "kept", &svcs[shared_idx].host_str(), svcs[shared_idx].v4[0]);
+            k.v6 = svcs[shared_idx].v6.clone();
+            k
+        } else {
+            scen::Svc::new(other, "kept", "Keep-Host.local", [10, 0, 0, 60])
+        };
         w.inject_msg(h, 2, scen::peer4(60), &s.announce());
     }
     w.run_for(1000 + rng.below(2000));
@@ -639,7 +649,7 @@ pub fn forget_case(seed: u64, l: &mut Local) {
     w.run_for(20 + rng.below(200));
     let snap = w.snapshot(h);
     l.evaluations += 1;
-    l.distinct.insert(util::fnv_str(&format!("forget|{n}|{capitals}|{dual}|{with_other}")));
+    l.distinct.insert(util::fnv_str(&format!("forget|{n}|{capitals}|{dual}|{with_other}|{shared_host}")));
     if w.trace.deaths().any(|d| matches!(d.ev, Ev::Death { panicked: true, .. })) {
         l.inconclusive.push(format!("daemon died in a C13 stop-and-forget scenario (seed {seed})"));
         return;
@@ -652,7 +662,7 @@ pub fn forget_case(seed: u64, l: &mut Local) {
         match r.map {
             "ptr" if is(ty) => Some(("ptr", r)),
             "srv" | "txt" if svcs.iter().any(|s| is(&s.fullname())) => Some((if r.map == "srv" { "srv" } else { "txt" }, r)),
-            "addr" if svcs.iter().any(|s| is(&s.host_str())) => Some(("address", r)),
+            "addr" if svcs.iter().enumerate().any(|(k, s)| is(&s.host_str()) && !(shared_host && k == shared_idx)) => Some(("address", r)),
             _ => None,
         }
     });
@@ -660,7 +670,7 @@ pub fn forget_case(seed: u64, l: &mut Local) {
         l.violate(
             Violation::new(
                 "T7",
-                format!("T7/record-of-stopped-browse-still-cached/{what}/{}", if capitals { "host-name-with-capitals" } else { "lower-case-host-name" }),
+                format!("T7/record-of-stopped-browse-still-cached/{what}/{}{}", if capitals { "host-name-with-capitals" } else { "lower-case-host-name" }, if shared_host { "/another-host-shared-with-an-open-search" } else { "" }),
                 format!("after stop_browse({ty}) the cache still holds {} (type {}, {})", r.name, r.ty, r.rdata),
             )
             .with(json!({"instances": svcs.iter().map(|s| format!("{} on {}", s.fullname(), s.host_str())).collect::<Vec<_>>(), "other_browse_open": with_other,
